@@ -166,6 +166,7 @@ def evalLine (line : String) : String :=
     | some rv =>
       if vs == "bits" then SolveDriver.solveLine SolveDriver.bitsIO (dbg == "dbg") root rv answers
       else if vs == "bits2" then SolveDriver.solveLine SolveDriver.bits2IO (dbg == "dbg") root rv answers
+      else if vs == "blur" then SolveDriver.solveLine SolveDriver.blurIO (dbg == "dbg") root rv answers
       else SolveDriver.solveLine SolveDriver.rangeIO (dbg == "dbg") root rv answers
   | _ => bad
 
